@@ -28,7 +28,7 @@ import zlib
 
 from . import common, sessionlib
 
-KINDS = ('pass', 'failout', 'bind', 'probe', 'rebind', 'readg', 'leaveskip', 'leavereq', 'reportstyle', 'trail', 'swapout', 'filters')
+KINDS = ('pass', 'failout', 'bind', 'probe', 'rebind', 'readg', 'leaveskip', 'leavereq', 'reportstyle', 'trail', 'swapout', 'filters', 'warns')
 BOUNDS = {'quick': dict(docs=3, hist=4, limit=10000), 'thorough': dict(docs=3, hist=4, limit=120000)}
 _J = {}
 
@@ -63,7 +63,7 @@ def _one(raw):
                     continue
                 os.environ['XDV_E'] = str(env)
                 e = byname['f%d' % (i - 1)]
-                e.mode = 'native'
+                e.mode = ['native', 'pytest'][rot % 2]            # 'pytest' is the default mode of a collected DocTest
                 e.config['colored'] = False
                 sink = io.StringIO()
                 sys.stdout = sink
@@ -76,7 +76,7 @@ def _one(raw):
                             bad.append(('warning_filters_after_run[%d:%s]' % (step, kinds[i - 1]), 'restored', 'changed'))
                     got = 'failed' if s['failed'] else ('passed' if s['passed'] else 'skipped')
                 except BaseException as ex:
-                    got = 'raised %r' % (ex,)
+                    got = 'skipped' if type(ex).__name__ == 'Skipped' else 'raised %r' % (ex,)     # pytest mode: everything skipped
                 finally:
                     if sys.stdout is not sink:
                         bad.append(('stdout_after_run[%d:%s]' % (step, kinds[i - 1]), 'restored', 'replaced'))
@@ -137,7 +137,7 @@ def run(tier):
         if 'bad' in info:
             out.violation(sig(info), {'module_source': info['text'], 'history(index,env,predicted)': info['hist'], 'disagreements': info['bad']})
     common.cleanup_scratch()
-    for dev in ('ModuleDictAliased', 'ShallowDefaults', 'SharedRunstate', 'NoUnmatchedReset'):
+    for dev in ('ModuleDictAliased', 'ShallowDefaults', 'SharedRunstate', 'NoUnmatchedReset', 'NoFilterRestore'):
         sessionlib.deviation_must_fail(out, dev, kinds=KINDS, maxdocs=2, mindocs=1, maxhist=3, commands=('all',), fronts=('native',))
     out.exhaustive = not out.extra.get('replay_sampled', False)
     out.assumptions = ['the solo outcome and stdout of each kind are known by construction (the same templates pass the C10/C15 front-end checks)',
